@@ -11,7 +11,7 @@
    [C14_known_root_start]: e.g. the document starts with a root element).  In both classes "cannot begin a valid tag" is the
    semantic hypothesis [junk_run]: at the junk's first byte and at each later junk position the header check fails in the
    reader's state there. *)
-From Ebml Require Import Base Tools Spec Writer Reader Pure Encode Proofs.Tactics Proofs.ReaderIO Proofs.Refine Proofs.PureProofs Proofs.RoundTrip Proofs.RoundTripKnown Proofs.Nesting Proofs.Partial Proofs.PartialKnown Proofs.Recover Proofs.RecoverKnown.
+From Ebml Require Import Base Tools Spec Writer Reader Pure Encode Proofs.Tactics Proofs.ReaderIO Proofs.Refine Proofs.PureProofs Proofs.RoundTrip Proofs.RoundTripKnown Proofs.Nesting Proofs.Partial Proofs.PartialKnown Proofs.Recover Proofs.RecoverKnown Proofs.AuditIO.
 
 (* the complete run: the tags before the junk unchanged (with the Ends of the masters that are complete there), exactly one
    error, try_recover() succeeds, then all remaining tags; the premise "the following tag still fits inside every enclosing
@@ -36,12 +36,21 @@ Theorem C14_undamaged_run_partial : forall c z, strict c -> c_buffered c = [] ->
   p_run c (enc_zdoc z) [RAll] = out_zdoc z.
 Proof. exact zipper_run. Qed.
 
-(* in every case try_recover() never moves backwards and fails only by reporting the end of the input (the buffered reader can
-   additionally report a source I/O error: C05_io_error_surfaces); it never panics (C05_no_panic) *)
+(* in every case try_recover() never moves backwards and fails only by reporting the end of the input; it never panics
+   (C05_no_panic).  The buffered reader can additionally report a source I/O error, and does report it: a Fail event that
+   try_recover() consumes from the source is the last event it consumes and is returned as Some (RIo code) - also when it is
+   met while peeking at a candidate header (C14_recover_reports_io_error = C05_try_recover_returns_fail; the defect D25,
+   repaired, swallowed it there); the buffered try_recover() has no other error (C14_recover_errors_buffered) *)
 Theorem C14_recover_forward : forall c st, b_off st <= b_off (fst (p_try_recover c st)).
 Proof. exact try_recover_forward. Qed.
 Theorem C14_recover_errors : forall c st e, snd (p_try_recover c st) = Some e -> exists o, e = REof o None None None.
 Proof. exact try_recover_errors. Qed.
+Theorem C14_recover_reports_io_error : forall c st code,
+  adv (r_script st) (r_script (fst (try_recover c st))) (Some code) -> snd (try_recover c st) = Some (RIo code).
+Proof. exact try_recover_reports_fail. Qed.
+Theorem C14_recover_errors_buffered : forall c st e, snd (try_recover c st) = Some e ->
+  (exists o, e = REof o None None None) \/ exists code, e = RIo code.
+Proof. exact try_recover_errors_buffered. Qed.
 
 (* header checks depend only on the parse fields of the state, so the junk hypothesis is about the document, not about
    incidental reader state *)
